@@ -17,6 +17,11 @@ Part A (real sessions, file-backed SQLite): fork points
   Oracle: no execute/commit/rollback/close/cursor in the child on a connection created by another pid; the parent
   finishes its session and runs further sessions successfully; rows committed by each side are seen by the other
   (plain sqlite3 and pony reads).
+Part D (fork chains): depth 1-3 over TWO Database objects; every process of the chain independently does or does not
+  use each database (main thread, and a thread that stays alive with its idle pooled connection) before it forks again;
+  an intermediate process may exit right after forking (orphaned descendant); a process's first connect attempt may fail
+  (error injected at the connect call, after it, or at the first PRAGMA) before it retries.  Same oracle for every
+  process of the chain.
 Part B: dbapiprovider.Pool driven directly with a fake DB-API module whose connections record (op, pid).
 Part C: OraPool driven directly over the stub cx_Oracle module with a recording SessionPool.
 """
@@ -33,7 +38,8 @@ META = {
     'level_note': 'Trusted: os.getpid(), the recorder subclass (factory=), the fake DB-API module / stub cx_Oracle '
                   'SessionPool. PostgreSQL/MySQL/Oracle servers are absent: their pools are exercised as classes '
                   '(Pool with sqlite3-backed connect; OraPool over a stub), not against real sockets.',
-    'rule': 'case = (pool kind, fork point, child behaviour, ordering, child program); non-trivial if the fork happened, the '
+    'rule': 'case = (pool kind, fork point, child behaviour, ordering, child program) or (pool kinds of two databases, per-process '
+            'plans of a fork chain); non-trivial if the fork happened, the '
             'child ran at least one session and its log was read back',
     'assumptions': [
         'fork() while ANOTHER thread of the parent is inside a transaction is not covered: CPython documents fork in a '
@@ -46,7 +52,7 @@ META = {
     'exhaustive_tiers': [],
 }
 
-SHARDS = {'quick': 1, 'thorough': 8}
+SHARDS = {'quick': 4, 'thorough': 8}
 SHARD_TIMEOUT = {'quick': 110, 'thorough': 900}
 
 import os, sys, json, time, select, sqlite3, threading, traceback
@@ -615,6 +621,256 @@ def orapool_case(tmpdir, serial, point):
 
 
 # ----------------------------------------------------------------------------------------------------------
+# Part D: fork chains of depth 1-3 over two Database objects; every process independently does or does not
+# touch each Database (main thread / a thread that stays parked with an idle pooled connection) before it forks
+# again; intermediates may exit at once (orphaned descendant); a process's first connect may fail.
+# ----------------------------------------------------------------------------------------------------------
+
+def tree_scenario(tmpdir, serial, kinds, plans):
+    """kinds: (kind of db0, kind of db1).  plans[0] is the root's plan, plans[1..d] those of the descendants:
+         {'touch': [db indices used in the main thread before forking on], 'thread': [db indices used by a thread that is
+          still alive, parked, with its idle pooled connection when the process forks], 'orphan': bool (exit right after
+          the fork), 'connect_fault': None | 'call' | 'ret' | 'pragma' (this process's first connect attempt fails)}
+       The last process (leaf) always uses both databases, in its main thread and in a fresh thread.
+       -> result dict (root side)."""
+    import itertools
+    from pony.orm import db_session, select
+    from vlib.dbapi import Recorder
+    from vlib.faults import SeqFault
+    depth = len(plans) - 1
+    fns = [os.path.join(tmpdir, 'c36t-%d-%d.sqlite' % (serial, i)) for i in (0, 1)]
+    outdir = os.path.join(tmpdir, 'c36t-%d' % serial)
+    os.makedirs(outdir, exist_ok=True)
+    for fn in fns:
+        for sfx in ('', '-journal'):
+            if os.path.exists(fn + sfx): os.remove(fn + sfx)
+    for i, fn in enumerate(fns):
+        db0, T0 = make_db(kinds[i], fn, Recorder(), True)
+        with db_session: T0(who='P0', v=0)
+        db0.disconnect()
+    rec = Recorder()
+    dbs = [make_db(kinds[i], fns[i], rec, False) for i in (0, 1)]
+    for db, T in dbs: db.disconnect()                 # every pool starts empty; only the plans decide who connects
+    res = {'part': 'tree', 'kinds': list(kinds), 'plans': plans, 'problems': [], 'serial': serial, 'depth': depth}
+    level = [0]
+    counter = [0]
+    committed, errors, notes = [], [], {}
+    parked = []
+
+    def use(i, tag):
+        """one write session + one read session on database i"""
+        db, T = dbs[i]
+        counter[0] += 1
+        m = 'L%d-%s-%d' % (level[0], tag, counter[0])
+        with db_session:
+            T(who=m, v=counter[0])
+        committed.append([i, m])
+        with db_session:
+            return sorted(select(t.who for t in T)[:])
+
+    def guarded(i, tag):
+        try: use(i, tag)
+        except BaseException as e: errors.append({'level': level[0], 'db': i, 'where': tag, 'error': repr(e)[:200]})
+
+    def park_thread(idx):
+        """a thread that uses the databases and then stays alive (idle pooled connections) until released"""
+        ready, release = threading.Event(), threading.Event()
+        def body():
+            for i in idx: guarded(i, 'thread')
+            ready.set(); release.wait(WATCHDOG)
+        th = threading.Thread(target=body, daemon=True); th.start()
+        if not ready.wait(WATCHDOG): errors.append({'level': level[0], 'where': 'park_thread', 'error': 'thread did not get ready'})
+        parked.append((th, release))
+
+    def prehistory(plan, leaf):
+        fault = plan.get('connect_fault')
+        idx_main = [0, 1] if leaf else list(plan.get('touch', ()))
+        if fault and idx_main:
+            # this process's FIRST attempt to connect fails; it then simply tries again
+            if fault == 'pragma': f = SeqFault(1, kinds=('execute',), phase='call', sql_pred=lambda q: q.startswith('PRAGMA'))
+            else: f = SeqFault(1, kinds=('connect',), phase=fault)
+            rec.faults.append(f)
+            try:
+                use(idx_main[0], 'first-attempt')
+                notes['first_attempt_succeeded'] = True
+            except Exception as e:
+                notes['first_attempt_error'] = repr(e)[:120]
+            finally:
+                del rec.faults[:]
+            notes['connect_fault_fired'] = bool(f.fired)
+        for i in idx_main: guarded(i, 'main')
+        if leaf:
+            box = {}
+            def body():
+                for i in (0, 1): guarded(i, 'leafthread')
+            th = threading.Thread(target=body, daemon=True); th.start(); th.join(WATCHDOG)
+            if th.is_alive(): errors.append({'level': level[0], 'where': 'leafthread', 'error': 'blocked'})
+        elif plan.get('thread'):
+            park_thread(list(plan['thread']))
+
+    def write_result():
+        out = {'level': level[0], 'pid': os.getpid(), 'ppid': os.getppid(), 'events': [dict(e, args=None) for e in rec.events],
+               'committed': committed, 'errors': errors, 'notes': notes}
+        path = os.path.join(outdir, 'node-%d.json' % level[0])
+        with open(path + '.tmp', 'w') as f: json.dump(out, f, default=repr)
+        os.replace(path + '.tmp', path)
+
+    def node():
+        """body of every forked process; never returns"""
+        code = 3
+        try:
+            rec.clear()
+            rec.conn_ids = itertools.count(level[0] * 1000000 + 1)
+            del committed[:]; del errors[:]; notes.clear(); del parked[:]
+            plan = plans[level[0]]
+            leaf = level[0] == depth
+            prehistory(plan, leaf)
+            if not leaf:
+                sys.stdout.flush(); sys.stderr.flush()
+                pid = os.fork()
+                if pid == 0:
+                    level[0] += 1
+                    node()
+                if plan.get('orphan'):
+                    notes['exited_without_waiting'] = True
+                else:
+                    notes['child_exit'] = wait_child(pid, WATCHDOG)
+                    # this process keeps working on its own connections after its child is gone
+                    for i in plan.get('touch', ()): guarded(i, 'after-child')
+            for th, release in parked: release.set()
+            write_result()
+            code = 0
+        except BaseException:
+            try:
+                with open(os.path.join(outdir, 'node-%d.err' % level[0]), 'w') as f: f.write(traceback.format_exc())
+            except Exception: pass
+        finally:
+            os._exit(code)
+
+    try:
+        prehistory(plans[0], False)
+        root_pool_ids = [db.provider.pool.con._vid if db.provider.pool.con is not None else None for db, T in dbs]
+        sys.stdout.flush(); sys.stderr.flush()
+        import warnings
+        with warnings.catch_warnings():
+            warnings.simplefilter('ignore', DeprecationWarning)     # fork with a parked thread alive is part of the scenario
+            pid = os.fork()
+        if pid == 0:
+            level[0] = 1
+            node()
+        res['exit'] = wait_child(pid, WATCHDOG)
+        # descendants may outlive the direct child (orphans): wait for their result files
+        deadline = time.time() + WATCHDOG
+        want = [os.path.join(outdir, 'node-%d.json' % l) for l in range(1, depth + 1)]
+        while time.time() < deadline and not all(os.path.exists(w) for w in want): time.sleep(0.01)
+        for th, release in parked: release.set()
+        for th, release in parked: th.join(WATCHDOG)
+        missing = [os.path.basename(w) for w in want if not os.path.exists(w)]
+        if missing:
+            errs = []
+            for l in range(1, depth + 1):
+                ep = os.path.join(outdir, 'node-%d.err' % l)
+                if os.path.exists(ep): errs.append(open(ep).read()[-400:])
+            res['inconclusive'] = 'no result from %s (exit %s) %s' % (missing, res['exit'], errs)
+            return res
+        nodes = []
+        for w in want:
+            with open(w) as f: nodes.append(json.load(f))
+        # the root keeps working on its own connections
+        for i in (0, 1): guarded(i, 'root-after')
+        root_errors = list(errors)
+        # ---- oracle: who created which connection, who called on it --------------------------------------------
+        own = {}
+        logs = [('root', os.getpid(), list(rec.events))] + [('L%d' % n['level'], n['pid'], n['events']) for n in nodes]
+        for name, npid, evs in logs:
+            for e in evs:
+                if e['kind'] == 'connect' and e['phase'] == 'call': own[e['conn']] = e['pid']
+        foreign, own_calls = [], 0
+        for name, npid, evs in logs:
+            for e in evs:
+                if e['phase'] != 'call' or e['kind'] == 'connect': continue
+                creator = own.get(e['conn'])
+                if creator == e['pid']: own_calls += 1
+                else: foreign.append({'process': name, 'kind': e['kind'], 'conn': e['conn'], 'created_by': creator,
+                                      'executed_by': e['pid'], 'sql': (e.get('sql') or '')[:40]})
+        res['calls_on_own_connections'] = own_calls
+        res['n_foreign'] = len(foreign)
+        if foreign:
+            res['problems'].append({'problem': 'process_used_connection_created_by_another_process', 'n': len(foreign),
+                                    'calls': foreign[:4]})
+        for n in nodes:
+            if n['errors']: res['problems'].append({'problem': 'descendant_session_failed', 'level': n['level'], 'errors': n['errors'][:3]})
+        if root_errors: res['problems'].append({'problem': 'root_session_failed', 'errors': root_errors[:3]})
+        res['connect_faults_fired'] = sum(1 for n in nodes if n['notes'].get('connect_fault_fired'))
+        res['connect_faults_planned'] = sum(1 for pl in plans[1:] if pl.get('connect_fault'))
+        res['orphans'] = sum(1 for n in nodes if n['ppid'] != (nodes[n['level'] - 2]['pid'] if n['level'] > 1 else os.getpid()))
+        res['processes'] = len(nodes)
+        # ---- mutual visibility ---------------------------------------------------------------------------------
+        vis = 0
+        for i in (0, 1):
+            con = sqlite3.connect(fns[i], timeout=5.0)
+            try: have = set(r[0] for r in con.execute('select who from T'))
+            finally: con.close()
+            must = [m for j, m in committed if j == i] + [m for n in nodes for j, m in n['committed'] if j == i] + ['P0']
+            lost = [m for m in must if m not in have]
+            vis += len(must)
+            if lost: res['problems'].append({'problem': 'commit_not_in_file', 'db': i, 'markers': lost[:6]})
+            try:
+                db, T = dbs[i]
+                with db_session: seen = set(select(t.who for t in T)[:])
+                inv = [m for m in must if m in have and m not in seen]
+                if inv: res['problems'].append({'problem': 'commit_invisible_to_root_session', 'db': i, 'markers': inv[:6]})
+            except BaseException as e:
+                res['problems'].append({'problem': 'root_session_failed', 'errors': [repr(e)[:200]]})
+        res['visibility_pairs'] = vis
+        res['root_pool_ids_at_fork'] = root_pool_ids
+        return res
+    finally:
+        if level[0] != 0: os._exit(6)
+        for th, release in parked: release.set()
+        for db, T in dbs:
+            try: db.disconnect()
+            except Exception: pass
+
+
+def tree_plans(quick, rng, nrand):
+    """-> list of (kinds, plans)"""
+    N = {'touch': [], 'thread': [], 'orphan': False, 'connect_fault': None}
+    def P(**kw):
+        d = dict(N); d.update(kw); return d
+    both = [0, 1]
+    out = []
+    K = ('sqlite', 'generic')
+    # depth 1: both pools of the root hold an idle connection; the child's first connect may fail
+    for cf in (None, 'call', 'ret', 'pragma'):
+        out.append((K, [P(touch=both), P(connect_fault=cf)]))
+    out.append((('generic', 'sqlite'), [P(touch=both, thread=both), P(connect_fault='call')]))
+    out.append((K, [P(touch=[0], thread=[1]), P()]))
+    # depth 2: the intermediate process touches none / one / both databases, waits or exits at once
+    for touch in ([], [0], both):
+        for orphan in (False, True):
+            out.append((K, [P(touch=both), P(touch=touch, orphan=orphan), P()]))
+    out.append((('generic', 'generic'), [P(touch=both), P(), P(connect_fault='call')]))
+    out.append((('sqlite', 'sqlite'), [P(touch=both, thread=[0]), P(touch=[1], thread=[1]), P(connect_fault='ret')]))
+    # depth 3
+    out.append((K, [P(touch=both), P(), P(), P()]))
+    out.append((K, [P(touch=both), P(touch=[0]), P(orphan=True), P()]))
+    out.append((K, [P(touch=[1]), P(touch=[0], orphan=True), P(touch=[1]), P(connect_fault='call')]))
+    out.append((('generic', 'sqlite'), [P(touch=both), P(touch=both, thread=[0]), P(touch=both, orphan=True), P()]))
+    kinds_all = [('sqlite', 'generic'), ('generic', 'sqlite'), ('sqlite', 'sqlite'), ('generic', 'generic')]
+    def subset(): return [i for i in (0, 1) if rng.random() < 0.5]
+    for _ in range(nrand):
+        d = rng.choice((1, 2, 2, 3))
+        plans = [P(touch=rng.choice((both, both, [0], [1])), thread=subset() if rng.random() < 0.3 else [])]
+        for l in range(1, d + 1):
+            plans.append(P(touch=subset(), thread=subset() if rng.random() < 0.25 else [],
+                           orphan=(l < d and rng.random() < 0.3),
+                           connect_fault=rng.choice((None, None, 'call', 'ret', 'pragma'))))
+        out.append((rng.choice(kinds_all), plans))
+    return out
+
+
+# ----------------------------------------------------------------------------------------------------------
 # driver
 # ----------------------------------------------------------------------------------------------------------
 
@@ -625,13 +881,13 @@ def record(ctx, res, fingerprint, sample=False):
         return
     ctx.case(fingerprint, nontrivial=True, sample=dict((k, res.get(k)) for k in
              ('kind', 'part', 'point', 'variant', 'order', 'child_prog', 'child_calls_on_own_connections', 'n_foreign',
-              'child_committed', 'problems')) if sample else None)
+              'child_committed', 'kinds', 'plans', 'processes', 'calls_on_own_connections', 'problems')) if sample else None)
     ctx.count('forks')
     if res.get('problems'):
         names = sorted(set(p['problem'] for p in res['problems']))
         witness = dict((k, res.get(k)) for k in ('kind', 'part', 'point', 'variant', 'order', 'child_prog', 'parent_prog',
                        'inherited_conn', 'pool_con_at_fork', 'child_foreign_calls', 'child_errors', 'child_inside_error',
-                       'child_ops', 'problems'))
+                       'child_ops', 'kinds', 'plans', 'problems'))
         fid = classify(res) if 'kind' in res else None
         if fid:
             ctx.count('finding.' + fid)
@@ -644,7 +900,7 @@ def record(ctx, res, fingerprint, sample=False):
 
 def run(ctx):
     tmp = ctx.tmp()
-    rng = ctx.rng
+    rng = ctx.subrng('plans')            # the same case list in every shard; each shard runs its slice
     serial = [ctx.shard * 100000]
     def nxt():
         serial[0] += 1
@@ -665,7 +921,7 @@ def run(ctx):
                 for order in (('child_first',) if quick and kind == 'generic' else ('child_first', 'parent_first')):
                     grid.append((kind, point, variant, order, base_child, base_parent))
     # randomised programs
-    nrand = 8 if quick else 400
+    nrand = 4 if quick else 400
     steps = ['write', 'read', 'thread_write', 'thread_read', 'write', 'read', 'disconnect']
     for i in range(nrand):
         kind = rng.choice(('sqlite', 'generic'))
@@ -730,6 +986,32 @@ def run(ctx):
                     ctx.count('orapool_cases')
                     ctx.count('orapool_child_ops_on_own', res.get('child_ops_on_own', 0))
 
+    # ---- Part D: fork chains -----------------------------------------------------------------------------------
+    trees = tree_plans(quick, rng, 4 if quick else 160)
+    mine_t = [t for i, t in enumerate(trees) if i % ctx.nshards == ctx.shard]
+    for i, (kinds, plans) in enumerate(mine_t):
+        res = tree_scenario(tmp, nxt(), kinds, plans)
+        record(ctx, res, ['D', kinds, plans], sample=(i % 7 == 0))
+        if res.get('inconclusive'): continue
+        ctx.count('tree_cases')
+        ctx.count('tree_depth.%d' % res['depth'])
+        ctx.count('tree_processes', res['processes'])
+        ctx.count('forks', res['processes'] - 1)
+        ctx.count('tree_calls_on_own_connections', res['calls_on_own_connections'])
+        ctx.count('tree_calls_on_foreign_connections', res['n_foreign'])
+        ctx.count('tree_orphaned_processes', res['orphans'])
+        ctx.count('tree_connect_faults_fired', res['connect_faults_fired'])
+        ctx.count('tree_connect_faults_planned', res['connect_faults_planned'])
+        ctx.count('visibility_pairs_checked', res.get('visibility_pairs', 0))
+        if any(pl.get('thread') for pl in plans): ctx.count('tree_cases_with_parked_thread_at_fork')
+        if not res['problems']: ctx.count('tree_cases_clean')
+    ctx.floor('tree_cases', max(1, len(mine_t) // 2))
+    ctx.floor('tree_calls_on_own_connections', 30 * max(1, len(mine_t) // 2))
+    planned_faults = sum(1 for k, pls in mine_t for pl in pls[1:] if pl.get('connect_fault') and (pl.get('touch') or pl is pls[-1]))
+    planned_orphans = sum(1 for k, pls in mine_t for pl in pls[1:-1] if pl.get('orphan'))
+    ctx.floor('tree_connect_faults_fired', planned_faults // 2)
+    ctx.floor('tree_orphaned_processes', planned_orphans // 2)
+
     ctx.floor('forks', max(3, len(mine) // 2))
     ctx.floor('child_calls_on_own_connections', 20 * max(1, len(mine) // 3))
     ctx.floor('idle_point_cases_clean', max(1, len(mine) // 8))
@@ -745,6 +1027,8 @@ def replay(ctx, witness):
         res = pool_direct_case(tmp, 1, witness['point'], witness['child_ops'])
     elif witness.get('part') == 'orapool':
         res = orapool_case(tmp, 1, witness['point'])
+    elif witness.get('part') == 'tree':
+        res = tree_scenario(tmp, 1, tuple(witness['kinds']), witness['plans'])
     else:
         res = scenario(tmp, 1, witness['kind'], witness['point'], witness.get('variant'), witness['order'],
                        witness['child_prog'], witness['parent_prog'])
